@@ -32,8 +32,8 @@ import (
 	"github.com/btcsuite/btcd/chainhash/v2"
 	"github.com/btcsuite/btcd/rpcclient"
 	"github.com/btcsuite/btcd/wire/v2"
-	"github.com/lightninglabs/neutrino"
 	"github.com/btcsuite/btcwallet/walletdb"
+	"github.com/lightninglabs/neutrino"
 	"github.com/lightninglabs/neutrino/blockntfns"
 	"github.com/lightninglabs/neutrino/filterdb"
 	"github.com/lightninglabs/neutrino/headerfs"
@@ -628,6 +628,13 @@ func main() {
 	} else {
 		ss = corpus(a.Seed, tip)
 		ss = append(ss, compCorpus(a.Seed, tip, 20)...)
+		if a.Tier == "thorough" {
+			// more backlog sizes around the queue's capacities (10 + 10)
+			for i, n := range []int{1, 9, 10, 11, 20, 21, 22, 60, 150, 1000} {
+				ss = append(ss, Scn{ID: 60 + i, Seed: a.Seed, ChainLen: 150, TipUnix: tip, NPeers: 2, Silent: []string{},
+					TxMode: "getdata", Phase: "backlog", DelayMs: 50, Persist: true, Backlog: n})
+			}
+		}
 		n := 50
 		if a.Tier == "thorough" {
 			n = 300
